@@ -1,6 +1,8 @@
 import PewProofs.Register
 import PewProofs.RegisterFast
 import PewProofs.RegisterPeak
+import PewProofs.RegisterMerge
+import PewProofs.RegisterShift
 import PewTheorems.C11
 
 /-! # C12 — property theorems (statements only depend on `PewModel.Register` / `PewModel.RegisterFast` /
@@ -575,5 +577,129 @@ example : truthHyp ⟨[4], fun i => if i = [1] then 1 else if i = [2] then 2 els
 (the window at lag 0 has more energy) -/
 example : truthHyp ⟨[4], fun i => if i = [0] then 3 else if i = [1] then 1 else if i = [2] then 2 else 0⟩
     ⟨[2], fun i => if i = [0] then 1 else 2⟩ [1] = false := by decide +kernel
+
+/-! ## an empty background: the estimate is the true translation without a per-case energy condition -/
+
+/-- **the estimate is the true translation on an empty background**, every dimension, no per-case evaluation of window
+energies: `b` is the window of zero-extended `a` at `t` and `a` vanishes outside that window (two windows of a scene
+that is zero outside their overlap; a tile that holds the only feature of a frame), `a` not identically zero.  Then the
+cross-correlation has its unique maximum at `t`, `register a b = t`, `register b a = −t`. -/
+theorem register_zero_background (a b : Img) (t : List Int)
+    (hpa : ∀ x ∈ a.shape, 0 < x) (hpb : ∀ x ∈ b.shape, 0 < x) (h : zeroBgHyp a b t = true) :
+    (∀ l, inLagBox a.shape b.shape l = true → l ≠ t → xcorr a b l < xcorr a b t) ∧
+      register a b = t ∧ register b a = t.map (- ·) := by
+  have h' := h
+  simp only [zeroBgHyp, Bool.and_eq_true, List.any_eq_true, bne_iff_ne] at h'
+  obtain ⟨⟨⟨hbox, -⟩, -⟩, i, hi, hA⟩ := h'
+  have hlen := inLagBox_length _ _ _ hbox
+  have htl := inLagBox_len _ _ _ hbox
+  have huniq : ∀ l, inLagBox a.shape b.shape l = true → l ≠ t → xcorr a b l < xcorr a b t := by
+    intro l hl hne
+    have hll := inLagBox_len _ _ _ hl
+    rw [xcorr_zero_background a b t l h hll, xcorr_zero_background a b t t h htl, zipWith_sub_self, htl, ← hlen]
+    apply xcorr_self_lt a i ((mem_allIdx _ _).mp hi) hA
+    · simp [List.length_zipWith, hll, htl, hlen]
+    · intro e
+      apply hne
+      apply zipWith_sub_eq_zeros l t (by rw [hll, htl])
+      rw [e, htl, hlen]
+  exact ⟨huniq, swap_negates a b t hpa hpb hbox huniq⟩
+
+/-- non-vacuity: `a = [0, 1, 2, 0]`, `b = [1, 2, 0]` placed at `1` (sticks out of `a` by one pixel, where it is zero) -/
+example : zeroBgHyp ⟨[4], fun i => if i = [1] then 1 else if i = [2] then 2 else 0⟩
+    ⟨[3], fun i => if i = [0] then 1 else if i = [1] then 2 else 0⟩ [1] = true := by decide +kernel
+
+
+/-! ## register, then merge **at the estimate**
+
+`merge_whole` is about windows placed at their true offsets.  The clause of the property ("merging the two images at
+the estimated offset reproduces the common scene on their union") composes it with the estimate: the arrays handed to
+`overlap_arrays` are the images themselves (`placed`), the second one at `register a b`. -/
+
+section mergeAtEstimate
+open Pew.Overlap
+
+/-- **register, then merge at the estimate**: `a` and `b` show one scene (`a` from the origin, `b` from `t`), the
+estimate is `t`; then `overlap_arrays([a, b], [0, fft_register_offset(a, b)])` is the scene on the union of the two
+images and the fill elsewhere (`replace` and `mean` modes, every fill) -/
+theorem merge_at_estimate (m : Mode) (hm : m ≠ .sum) (fill : V) (a b : Img) (t : List Int) (scene : Idx → Rat)
+    (ht : t.length = a.shape.length)
+    (ha : ∀ n, inBox n a.shape = true → a.get n = scene (n.map Int.ofNat))
+    (hb : ∀ n, inBox n b.shape = true → b.get n = scene (List.zipWith (· + ·) (n.map Int.ofNat) t))
+    (hreg : register a b = t) :
+    overlap false m fill a.shape.length [placed a (List.replicate a.shape.length 0), placed b (register a b)]
+      = mergeSpec scene fill a.shape.length
+          [window scene (List.replicate a.shape.length 0) a.shape, window scene t b.shape] := by
+  rw [hreg]
+  have h0 : sameArr (placed a (List.replicate a.shape.length 0)) (window scene (List.replicate a.shape.length 0) a.shape) := by
+    apply placed_sameArr a _ scene
+    intro n hn
+    rw [ha n hn, zipWith_add_zeros _ _ (by rw [List.length_map]; exact inBox_length _ _ hn)]
+  have h1 : sameArr (placed b t) (window scene t b.shape) :=
+    placed_sameArr b t scene hb
+  rw [overlap_congr m fill _ _ _ (List.Forall₂.cons h0 (List.Forall₂.cons h1 List.Forall₂.nil))]
+  have := merge_whole m hm fill a.shape.length scene
+    [(List.replicate a.shape.length 0, a.shape), (t, b.shape)] (by
+      intro w hw
+      simp only [List.mem_cons, List.not_mem_nil, or_false] at hw
+      rcases hw with rfl | rfl
+      · simp
+      · exact ht)
+  simpa using this
+
+
+/-- … under the scene hypothesis of `register_truth` -/
+theorem register_then_merge (m : Mode) (hm : m ≠ .sum) (fill : V) (a b : Img) (t : List Int) (scene : Idx → Rat)
+    (hpa : ∀ x ∈ a.shape, 0 < x) (hpb : ∀ x ∈ b.shape, 0 < x)
+    (ha : ∀ n, inBox n a.shape = true → a.get n = scene (n.map Int.ofNat))
+    (hb : ∀ n, inBox n b.shape = true → b.get n = scene (List.zipWith (· + ·) (n.map Int.ofNat) t))
+    (h : truthHyp a b t = true) :
+    overlap false m fill a.shape.length [placed a (List.replicate a.shape.length 0), placed b (register a b)]
+      = mergeSpec scene fill a.shape.length
+          [window scene (List.replicate a.shape.length 0) a.shape, window scene t b.shape] := by
+  have hbox : inLagBox a.shape b.shape t = true := by
+    simp only [truthHyp, Bool.and_eq_true] at h
+    exact h.1.1
+  exact merge_at_estimate m hm fill a b t scene
+    (by rw [inLagBox_len _ _ _ hbox, inLagBox_length _ _ _ hbox]) ha hb (register_truth a b t hpa hpb h).2.1
+
+/-- … on an empty background (`register_zero_background`) -/
+theorem register_then_merge_zero_background (m : Mode) (hm : m ≠ .sum) (fill : V) (a b : Img) (t : List Int)
+    (scene : Idx → Rat) (hpa : ∀ x ∈ a.shape, 0 < x) (hpb : ∀ x ∈ b.shape, 0 < x)
+    (ha : ∀ n, inBox n a.shape = true → a.get n = scene (n.map Int.ofNat))
+    (hb : ∀ n, inBox n b.shape = true → b.get n = scene (List.zipWith (· + ·) (n.map Int.ofNat) t))
+    (h : zeroBgHyp a b t = true) :
+    overlap false m fill a.shape.length [placed a (List.replicate a.shape.length 0), placed b (register a b)]
+      = mergeSpec scene fill a.shape.length
+          [window scene (List.replicate a.shape.length 0) a.shape, window scene t b.shape] := by
+  have hbox : inLagBox a.shape b.shape t = true := by
+    simp only [zeroBgHyp, Bool.and_eq_true] at h
+    exact h.1.1.1
+  exact merge_at_estimate m hm fill a b t scene
+    (by rw [inLagBox_len _ _ _ hbox, inLagBox_length _ _ _ hbox]) ha hb (register_zero_background a b t hpa hpb h).2.1
+
+/-- … **whenever the driver's `peak` has a positive margin and sits at the true translation** — the condition under
+which `c12.py` compares the merge clause (it demands a 5 % margin) -/
+theorem register_then_merge_peak (m : Mode) (hm : m ≠ .sum) (fill : V) (a b : Img) (pk : Peak) (scene : Idx → Rat)
+    (hpa : ∀ x ∈ a.shape, 0 < x) (hpb : ∀ x ∈ b.shape, 0 < x)
+    (ha : ∀ n, inBox n a.shape = true → a.get n = scene (n.map Int.ofNat))
+    (hb : ∀ n, inBox n b.shape = true → b.get n = scene (List.zipWith (· + ·) (n.map Int.ofNat) pk.lag))
+    (h : peak a b = some pk) (hmar : ∀ r, pk.runnerUp = some r → r < pk.value) :
+    overlap false m fill a.shape.length [placed a (List.replicate a.shape.length 0), placed b (register a b)]
+      = mergeSpec scene fill a.shape.length
+          [window scene (List.replicate a.shape.length 0) a.shape, window scene pk.lag b.shape] := by
+  have hbox := (peak_margin_unique a b pk h hmar).1
+  exact merge_at_estimate m hm fill a b pk.lag scene
+    (by rw [inLagBox_len _ _ _ hbox, inLagBox_length _ _ _ hbox]) ha hb (peak_margin_register a b pk hpa hpb h hmar).1
+
+/-- non-vacuity: `a = [0, 1, 2, 0]`, `b = [1, 2]` cut at `1` from the scene `p ↦ a[p]`: merged at the estimate in
+replace mode with a NaN fill the result is `a` -/
+example : overlap false .replace none 1
+    [placed ⟨[4], fun i => if i = [1] then 1 else if i = [2] then 2 else 0⟩ [0],
+     placed ⟨[2], fun i => if i = [0] then 1 else 2⟩
+       (register ⟨[4], fun i => if i = [1] then 1 else if i = [2] then 2 else 0⟩ ⟨[2], fun i => if i = [0] then 1 else 2⟩)]
+    = ([4], [some 0, some 1, some 2, some 0]) := by decide +kernel
+
+end mergeAtEstimate
 
 end Pew.Register
